@@ -896,6 +896,23 @@ func (m *PktModel) cleanProbes(w *world.World, g Ghost) []Probe {
 			}
 			signer := atc.Relayer().Addr.String()
 			for n := uint64(1); n <= m.MaxCleanSeq+1; n++ {
+				// the proof-less source-side message sent to a chain that is not the source, naming the real source: there it
+				// can only mean the channel (this chain -> destination); it must fail unless that channel may be cleaned up to n
+				own := true
+				for seq := uint64(1); seq <= n; seq++ {
+					r, ok := g.find(at, c.dst, seq)
+					if !ok || g.AckOK[pid(r.P)+"@"+at] == 0 {
+						own = false
+					}
+				}
+				if !own || n <= atc.CleanPoint(at, c.dst) {
+					for _, relay := range []string{c.relay, "", c.src} {
+						cp := packettypes.CleanPacket{Sequence: n, SourceChain: c.src, DestinationChain: c.dst, RelayChain: relay}
+						out = append(out, Probe{Label: fmt.Sprintf("clean[source-side-message-on-another-chain]%s>%s/%s#%d@%s", c.src, c.dst, relay, n, at), Chain: at,
+							Msg:      &packettypes.MsgCleanPacket{CleanPacket: cp, Signer: signer},
+							MustFail: "C10", Signature: "clean-accepted-on-a-chain-that-is-not-the-source"})
+					}
+				}
 				for _, relay := range []string{c.relay, ""} {
 					cp := packettypes.CleanPacket{Sequence: n, SourceChain: c.src, DestinationChain: c.dst, RelayChain: relay}
 					from := c.src
